@@ -342,7 +342,7 @@ def generic_store_check(rep, tier, seed, prop, allow, extras_fn, want, nhist, co
         lines, tags = script_for(h, meta, extras_fn(meta))
         spans.append((len(all_lines), len(lines), h, meta, tags))
         all_lines += lines
-    root = os.path.join(WORK, "run-" + prop)
+    root = os.path.join(RUNS, "run-" + prop)
     impl, model, died = run_both(all_lines + ["clock thaw", "clock 0"], root, preload=True)
     impl, model = impl[:len(all_lines)], model[:len(all_lines)]
     rep.cov["evaluations"] += len(all_lines)
@@ -488,7 +488,7 @@ def gets(meta):
 
 
 def run_c01(rep, tier, seed):
-    config_stage(rep, random.Random(seed * 77 + 1), 40 if tier == "quick" else 400, os.path.join(WORK, "run-cfg-" + "run_c01"))
+    config_stage(rep, random.Random(seed * 77 + 1), 40 if tier == "quick" else 400, os.path.join(RUNS, "run-cfg-" + "run_c01"))
     n = 250 if tier == "quick" else 3000
     generic_store_check(rep, tier, seed, "C01", {"put", "del", "get", "merge"}, lambda meta: (lambda i, op: []), {"map"}, n,
                         compare_fn=lambda tag, line: tag[0] == "op" and not line.startswith("merge"))
@@ -512,7 +512,7 @@ def run_c02(rep, tier, seed):
                         mutate_hist=with_merges)
     # histories need not be sequential: two operations on one key race for the writer, one of them held between its append
     # and its index update; what the store reads once both have returned is what it must read after the restart
-    root = os.path.join(WORK, "run-C02-race")
+    root = os.path.join(RUNS, "run-C02-race")
     for mfs in (1000000, 0):
         for (opa, opb) in (("put 6b 6161", "put 6b 6262"), ("put 6b 6161", "del 6b"), ("del 6b", "put 6b 6262")):
             point = "put.before_publish" if opa.startswith("put") else "del.before_publish"
@@ -581,7 +581,7 @@ def run_c12(rep, tier, seed):
 
 
 def run_c13(rep, tier, seed):
-    config_stage(rep, random.Random(seed * 77 + 1), 40 if tier == "quick" else 400, os.path.join(WORK, "run-cfg-" + "run_c13"))
+    config_stage(rep, random.Random(seed * 77 + 1), 40 if tier == "quick" else 400, os.path.join(RUNS, "run-cfg-" + "run_c13"))
     n = 250 if tier == "quick" else 3000
 
     def mutate(rng, h):
